@@ -1,13 +1,13 @@
 SPECIFICATION Spec
 CONSTANTS
   SID = {1}
-  Profiles <- ProfAuto
+  Profiles <- ProfNone
   MaxVal = 0
-  DEV <- Dev_AutoEntryNotInvalidatedByUpd
+  DEV <- NoDev
   MaxVer = 3
-  WithSnap = FALSE
+  WithSnap = TRUE
   SelfCopy = TRUE
 CONSTRAINT VerBound
 VIEW View
-INVARIANTS Refinement
+INVARIANTS DiffMeaning SysStageLeMin
 CHECK_DEADLOCK FALSE
